@@ -11,6 +11,9 @@ def sh(cmd, cwd=None, env=ENV, timeout=3000):
 def main():
     d = sys.argv[1].rstrip("/")
     meta = json.load(open(os.path.join(d, "meta.json")))
+    if "demonstration" in meta:  # a kept seed under /verif/seeded
+        meta.setdefault("demo_pkg_dir", meta["demonstration"].get("package_dir"))
+        meta.setdefault("demo_cmd", meta["demonstration"].get("command"))
     props = sys.argv[2:] or [meta["property"]]
     skip_confirm = os.environ.get("SKIP_CONFIRM") == "1"
     wt = tempfile.mkdtemp(prefix="seedwt-", dir="/tmp")
@@ -62,7 +65,7 @@ def main():
         import hashlib
         tag = hashlib.sha1(wt.encode()).hexdigest()[:8]
         sh("rm -rf /verif/harness/bin-%s /verif/harness/alt-%s.mod /verif/harness/alt-%s.sum /verif/work/*-%s" % (tag, tag, tag, tag))
-        json.dump(res, open(os.path.join(d, "result.json"), "w"), indent=1)
+        json.dump(res, open(os.environ.get("SEEDRUN_OUT") or os.path.join(d, "result.json"), "w"), indent=1)
     return res
 if __name__ == "__main__":
     r = main()
